@@ -96,6 +96,14 @@ def encode_v2(tmap, pad, records, is64=1, tick=24000000):
     return bytes(out), segs
 
 
+def safe_fill(fill, tag):
+    """filler such that the FIRST occurrence of tag in fill+tag is the tag itself (a filler ending with a prefix of
+    the tag would otherwise make the tag appear earlier - a different file)."""
+    while (fill + tag).find(tag) != len(fill):
+        fill = fill[:-1]
+    return fill
+
+
 def encode_v3(tmap, chunks, blocks=(), fill1=b'', fill2=b'', fill3=b'', more_fill=b'', cpu_info=None,
               header_fields=None):
     """chunks: list of lists of 64-byte records (>= 1 chunk). blocks: list of (tag, payload bytes).
@@ -119,8 +127,10 @@ def encode_v3(tmap, chunks, blocks=(), fill1=b'', fill2=b'', fill3=b'', more_fil
     add('ver', V3_MAGIC)
     add('hdr', hdr)
     add('align', b'\x00' * 4)
-    for tag in ALL_TAGS[:2]:
-        assert tag not in fill1 and TAG_THREADMAP not in fill2
+    fill1 = safe_fill(fill1, TAG_STACKSHOT_END)
+    fill2 = safe_fill(fill2, TAG_THREADMAP)
+    fill3 = safe_fill(fill3, TAG_EVENTS)
+    more_fill = safe_fill(more_fill, TAG_EVENTS)
     add('fill', fill1)
     add('tag_stackshot', TAG_STACKSHOT_END)
     add('fill', fill2)
